@@ -41,6 +41,9 @@ CLAIMED = {
  "C08": ("who-may-write over the whole package, event-language pairing on the CFG of _append_chunk, def-use in make/_merge_chunks, self-aliasing rule on loops, call-graph funnel rule",
          "Decides the representation invariant on which ==, len() and rendering rely, for every sequence of operations: chunk list and cached length are written only inside the three funnel functions, every path of the append primitive mutates list and length exactly once (or neither, for empty text) and merges exactly same-coloured neighbours in order, make() stores the merged list and a length computed from that same list, no loop iterates a container that its body grows when the two may be the same object (t += t), and every text returned by a public operation is built through the funnel.",
          "Index / slice / fixed_len / format arithmetic (offsets, negative and out-of-range bounds) is value-level and NOT decided; a defect there is invisible to this check.", "3/C08"),
+ "C04": ("provenance abstract interpretation of the tokenizer (finite tag domain, fixpoint over both loops, states partitioned by span mode), def-use rules for node spans",
+         "Decides where positions come from on every path of the tokenizer: the start position handed to a token is built on (or compared against) the line counter of the current iteration for ordinary tokens and captured at the opener for span tokens, every end position is SrcPos(line, match.end()+1) of the current line, the unmatched-character error names the current line, the end-of-input token sits at the last end; plus the node-span rules (empty node = empty span at the following token, inner node = first child's start .. last child's end, leaf = the token's own span).",
+         "The 0/1-based slice arithmetic of get_orig_text and column arithmetic beyond the `+1` forms are value-level and NOT decided; adjacency within a line follows from the rules but is not separately proven.", "3/C04"),
 }
 
 NOT_APPLICABLE = {
